@@ -89,7 +89,7 @@ func kindPredicate(cond ssa.Value) map[int64]bool {
 	if cal == nil || cal.Blocks == nil || !strings.HasPrefix(pkgPathOf(cal), Mod) || len(cal.Params) != 1 || cal.Signature.Results().Len() != 1 || !isBool(cal.Signature.Results().At(0).Type()) {
 		return out
 	}
-	if nt, ok := cal.Params[0].Type().(*types.Named); !ok || nt.Obj().Pkg() == nil || nt.Obj().Pkg().Path() != "reflect" || nt.Obj().Name() != "Kind" {
+	if nt, ok := cal.Params[0].Type().(*types.Named); !ok || nt.Obj().Pkg() == nil || nt.Obj().Pkg().Path() != "reflect" || (nt.Obj().Name() != "Kind" && nt.Obj().Name() != "Type") {
 		return out
 	}
 	for _, ret := range returnsOf(cal) {
@@ -163,6 +163,67 @@ func kindsOfCond(cond ssa.Value, depth int) (map[int64]bool, bool) {
 		}
 	}
 	return out, len(out) > 0
+}
+
+// nilArmReached: block target of converter f is reached when the supplied interface is nil and the declared type's kind is k.
+func nilArmReached(f *ssa.Function, target *ssa.BasicBlock, k int64) bool {
+	isTypeP := func(v ssa.Value) bool {
+		pr, ok := v.(*ssa.Parameter)
+		return ok && pr.Parent() == f && strings.HasSuffix(pr.Type().String(), "reflect.Type")
+	}
+	// a Kind() of the declared type, or the type itself
+	ofDeclared := func(v ssa.Value) bool {
+		v = resolveLocal(v)
+		if isTypeP(v) {
+			return true
+		}
+		c, ok := v.(*ssa.Call)
+		return ok && c.Call.IsInvoke() && c.Call.Method.Name() == "Kind" && isTypeP(resolveLocal(c.Call.Value))
+	}
+	assign := map[ssa.Value]bool{}
+	eachInstr(f, func(i ssa.Instruction) {
+		v, ok := i.(ssa.Value)
+		if !ok || !isBool(v.Type()) {
+			return
+		}
+		switch x := v.(type) {
+		case *ssa.BinOp:
+			if x.Op != token.EQL && x.Op != token.NEQ {
+				return
+			}
+			var other ssa.Value
+			if isNilConst(x.Y) {
+				other = x.X
+			} else if isNilConst(x.X) {
+				other = x.Y
+			}
+			if pr, ok := other.(*ssa.Parameter); ok && types.IsInterface(pr.Type()) && !isTypeP(pr) {
+				assign[v] = x.Op == token.EQL
+				return
+			}
+			a, b := x.X, x.Y
+			if _, isC := a.(*ssa.Const); isC {
+				a, b = b, a
+			}
+			if kc, ok := constInt(b); ok && ofDeclared(a) && !isTypeP(resolveLocal(a)) {
+				assign[v] = (kc == k) == (x.Op == token.EQL)
+			}
+		case *ssa.Call:
+			if len(x.Call.Args) == 1 && !x.Call.IsInvoke() && ofDeclared(x.Call.Args[0]) {
+				if ks := kindPredicate(x); len(ks) > 0 {
+					assign[v] = ks[k]
+				}
+			}
+		case *ssa.Lookup:
+			if !x.CommaOk && ofDeclared(x.Index) {
+				if ks := kindTable(x); len(ks) > 0 {
+					assign[v] = ks[k]
+				}
+			}
+		}
+	})
+	blocked := func(cond ssa.Value) bool { return dependsOn(cond, isTypeP) }
+	return reachableUnderBlocked(f, assign, blocked)[target]
 }
 
 func kindSetString(m map[int64]bool) string {
@@ -257,6 +318,23 @@ func c09(c *Ctx) {
 				if !ks[k] {
 					missing = append(missing, kindNames[k])
 				}
+			}
+			if len(missing) > 0 {
+				// path-sensitive form: with the input nil and the declared kind fixed to k, the substitution is reached
+				// whatever the conditions that do not depend on the declared type turn out to be (conditions on the
+				// type that cannot be evaluated block the path)
+				still := []string{}
+				for _, k := range needNil {
+					if !nilArmReached(f, z.Block(), k) {
+						still = append(still, kindNames[k])
+					}
+				}
+				if len(still) == 0 {
+					for _, k := range needNil {
+						ks[k] = true
+					}
+				}
+				missing = still
 			}
 			cons := "nil arm of " + shortName(f)
 			if !underNil {
